@@ -30,9 +30,9 @@ BUDGET = {
     "thorough": {"cases": 2000000, "seconds": 900, "shards": 16},
 }
 REQUIRED_OBS = ["finite_checked", "symmetric_checked", "nonneg_checked", "zero_self_checked", "triangle_checked",
-                "class:identical", "class:parallel", "class:zeros", "class:dim1", "class:collinear", "class:tiny", "class:intdtype"]
+                "class:identical", "class:parallel", "class:zeros", "class:dim1", "class:collinear", "class:tiny", "class:intdtype", "class:mixeddtype"]
 MIN_NONTRIVIAL = 1000
-CLASSES = ["indep", "identical", "parallel", "dim1", "zeros", "collinear", "near", "tiny", "intdtype"]
+CLASSES = ["indep", "identical", "parallel", "dim1", "zeros", "collinear", "near", "tiny", "intdtype", "mixeddtype"]
 LENGTHS = [1, 2, 3, 5, 8, 16, 33]
 
 
@@ -60,6 +60,10 @@ def generate(rng, tier, idx):
         x, y, z = (int_vec(rng, kind, n, zok, narrow=dtype in ("u8", "u16")).astype(float) for _ in range(3))
         if rng.random() < 0.3:
             y = x.copy()
+    if cls == "mixeddtype" and kind != "Q":
+        # x integer-valued (handed over as int64), y and z fractional float64: the two arguments have DIFFERENT dtypes
+        x = int_vec(rng, kind, n, bool(dec)).astype(float)
+        dtype = "mixed"
     if cls == "identical":
         y = x.copy()
     elif cls == "parallel":
@@ -89,9 +93,15 @@ def check(case):
 
     npdt = {"i32": np.int32, "i64": np.int64, "u8": np.uint8, "u16": np.uint16}.get(case.get("dtype", "f64"), float)
 
+    def arr(v):
+        a = np.array(v, dtype=float)
+        if case.get("dtype") == "mixed":
+            return a.astype(np.int64) if v is X or v == X else a
+        return a.astype(npdt)
+
     def d(a, b):
         try:
-            return float(fn(np.array(a, dtype=float).astype(npdt), np.array(b, dtype=float).astype(npdt)))
+            return float(fn(arr(a), arr(b)))
         except Exception as ex:  # an exception on an in-domain vector pair delivers no number at all
             res.violate("finite", f"C08/exception/{type(ex).__name__}", f"{name} raised {type(ex).__name__}: {str(ex)[:200]} on {a} {b}")
             return None
